@@ -108,7 +108,7 @@ func C21(c *Ctx) {
 	}
 
 	const r2 = "K1.persist-before-send"
-	c.Rule(r2, "Peer.processReady sends the Ready's messages only after handleReady returned nil; handleReady persists hard state, snapshot and entries (each error returned) before applying committed entries; processReady calls node.Advance only after handleReady succeeded")
+	c.Rule(r2, "Peer.processReady sends the Ready's messages only after handleReady returned nil; handleReady persists snapshot, entries and then the hard state (each error returned; the hard state last, because its commit index may refer to the other two) before applying committed entries; processReady calls node.Advance only after handleReady succeeded")
 	if fn := c.Fn("raftstore/peer", "Peer.processReady"); fn != nil {
 		hr := Named("raftstore/peer.(*Peer).handleReady")
 		beforeOK(c, r2, fn, "handleReady", hr, "sendMessages", Named("raftstore/peer.(*Peer).sendMessages"), 1)
@@ -131,6 +131,17 @@ func C21(c *Ctx) {
 		sites := need(c, r2, owner, false, "storage mutators", st, 3)
 		for i, s := range sites {
 			errPropagated(c, r2, key(fn, fmt.Sprintf("storage-mutator[%d]#error-propagated", i+1)), owner, s)
+		}
+		// the hard state record goes last: no snapshot/entries persistence is reachable after it
+		hsM := Named("(raftstore/engine.PeerStorage).SetHardState")
+		for i, hs := range Calls(owner, false, hsM) {
+			late := ""
+			for _, o := range Calls(owner, false, Named("(raftstore/engine.PeerStorage).ApplySnapshot", "(raftstore/engine.PeerStorage).Append")) {
+				if blockReaches(hs.Block(), o.Block()) && !(hs.Block() == o.Block() && Dominates(o.(ssa.Instruction), hs.(ssa.Instruction))) {
+					late = CalleeObj(o.Common()).Name()
+				}
+			}
+			c.Decide(late == "", r2, key(fn, fmt.Sprintf("SetHardState[%d]#after-snapshot-and-entries", i+1)), hs.Pos(), 3, "the hard state is persisted after the snapshot and the entries it may refer to", "storage."+late+" can run after SetHardState within one Ready: each is its own synced WAL record, so a crash in between recovers a commit index beyond the log (the peer panics on restart)")
 		}
 		// apply of committed entries after the three persistence calls: the apply callback call (dynamic) and applyAdminCommand
 		beginApply := deepMatcher(Named("raftstore/peer.(*Peer).beginApply"), FuncPkgPath(fn), 2)
